@@ -22,7 +22,8 @@ cleanup() { git -C /repo worktree remove --force "$wt" 2>/dev/null; rm -rf "$wt"
 trap cleanup EXIT
 for f in gbn/verif_contracts.go mailbox/verif_contracts.go; do cp /repo/$f "$wt/$f"; done
 cp "$demo" "$wt/$rel"
-rundemo() { (cd "$wt/$pkgdir" && go test -vet=off -count=1 -timeout 120s -run "^($tname)\$" . >"$wt/.demo.out" 2>&1); }
+race=""; grep -q -- "-race" "$src/demo.txt" 2>/dev/null && race="-race"
+rundemo() { (cd "$wt/$pkgdir" && go test $race -vet=off -count=1 -timeout 180s -run "^($tname)\$" . >"$wt/.demo.out" 2>&1); }
 rundemo; clean_rc=$?
 git -C "$wt" apply "$src/patch.diff" || { echo "SEED $name: patch does not apply"; exit 2; }
 (cd "$wt/gbn" && go build ./... ) && (cd "$wt/mailbox" && go build . ) || { echo "SEED $name: does not build"; exit 2; }
@@ -54,8 +55,8 @@ echo "SEED $name: silent:$missed"
 if [ $valid -eq 1 ]; then
   d="$VERIF/seeded/$name"; mkdir -p "$d"
   cp "$src/patch.diff" "$d/patch.diff"; cp "$demo" "$d/"; [ -f "$src/note.txt" ] && cp "$src/note.txt" "$d/"
-  python3 - "$d" "$prop" "$name" "$rel" "$tname" "$caught" <<'EOF'
-import json,sys,re
+  RACE="$race" python3 - "$d" "$prop" "$name" "$rel" "$tname" "$caught" <<'EOF'
+import json,sys,re,os
 d,prop,name,rel,tname,caught=sys.argv[1:7]
 c={}
 for m in re.finditer(r'(C\d\d)\[([^\]]*)\]',caught): c[m.group(1)]=[x for x in m.group(2).split(',') if x]
@@ -63,7 +64,7 @@ note=''
 try: note=open(d+'/note.txt').read()
 except Exception: pass
 json.dump({"id":name,"property":prop,"origin":"fresh sub-agent given only the property text and a scratch worktree",
- "demo_file":rel,"demo_run":"cd %s && go test -vet=off -count=1 -run '^(%s)$' ."%(rel.rsplit('/',1)[0],tname),
+ "demo_file":rel,"demo_run":("cd %s && go test RACEFLAG -vet=off -count=1 -run '^(%s)$' ."%(rel.rsplit('/',1)[0],tname)).replace("RACEFLAG ",(os.environ.get("RACE","")+" ").lstrip()),
  "confirmed":{"demo_passes_on_unchanged_tree":True,"demo_fails_with_change":True,"existing_suite_passes_with_change":True},
  "caught_by":c,"caught_by_target_property":prop in c,"description":note},open(d+'/meta.json','w'),indent=1)
 EOF
